@@ -367,7 +367,12 @@ func autoParallelStage(source iterator.Producer[Value], build func(source iterat
 				if stopped.Load() {
 					return false
 				}
-				return y(v, err)
+				cont := y(v, err)
+				// In parallel mode an error item is just handed to the workers and the
+				// source is asked to go on. No consumer reads beyond an error, and some
+				// sources go on with an invalid item after they have reported an error,
+				// so the source is stopped here.
+				return cont && err == nil
 			})
 		}
 		stage := build(stoppableSource, func() { workers.Add(1) })
